@@ -86,6 +86,9 @@ enum Alphabet {
     Full,
     /// One representative per diff kind (deep lag sweeps).
     Reduced,
+    /// Representative positions (front, second, middle, chunk boundary, back)
+    /// of vectors beyond one 64-item imbl chunk.
+    Tree,
 }
 
 #[derive(Clone, Debug)]
@@ -246,6 +249,41 @@ fn ops_for(len: u8, max_len: u8, alpha: Alphabet, bursts: &[u8], out: &mut Vec<T
             for i in 0..len {
                 out.push(Tok::Op(Op::EntryRemove(i)));
             }
+        }
+        Alphabet::Tree => {
+            let mid = len / 2;
+            let mut pos = vec![0u8, 1, mid, 63, 64, len.saturating_sub(2), len.saturating_sub(1)];
+            pos.retain(|p| *p < len);
+            pos.sort();
+            pos.dedup();
+            if room >= 1 {
+                out.push(Tok::Op(Op::PushBack));
+                out.push(Tok::Op(Op::PushFront));
+                for &i in &pos {
+                    out.push(Tok::Op(Op::Insert(i)));
+                }
+                out.push(Tok::Op(Op::Insert(len)));
+            }
+            if room >= 2 {
+                out.push(Tok::Op(Op::Append(2)));
+            }
+            out.push(Tok::Op(Op::PopFront));
+            out.push(Tok::Op(Op::PopBack));
+            for &i in &pos {
+                out.push(Tok::Op(Op::Set(i)));
+                out.push(Tok::Op(Op::Remove(i)));
+            }
+            for n in [0u8, 1, 63, 64, 65, len.saturating_sub(1), len, len + 1] {
+                if n <= len + 1 {
+                    out.push(Tok::Op(Op::Truncate(n)));
+                }
+            }
+            if len > 0 {
+                out.push(Tok::Op(Op::EntrySet(mid.min(len - 1))));
+                out.push(Tok::Op(Op::EntryRemove(0)));
+                out.push(Tok::Op(Op::EntryRemove(mid.min(len - 1))));
+            }
+            out.push(Tok::Op(Op::Clear));
         }
         Alphabet::Reduced => {
             if room >= 1 {
@@ -2015,6 +2053,29 @@ struct Plan {
     depth: usize,
 }
 
+/// Vectors of 66 and 131 items (imbl's tree mode), a plain and a batched
+/// subscriber, transactions; capacity 16 and, for the lag path (`Reset` of a
+/// large vector), capacity 1.
+fn tree_vec_cfgs(prop: &'static str, oob: bool) -> Vec<Cfg> {
+    let mut cfgs = Vec::new();
+    for len in [66u8, 131] {
+        for capacity in [16usize, 1] {
+            cfgs.push(Cfg {
+                init_len: len,
+                max_len: len + 3,
+                capacity,
+                alphabet: Alphabet::Tree,
+                pre_subs: vec![(Kind::Plain, Policy::Manual), (Kind::Batched, Policy::Manual)],
+                txn: true,
+                txn_abort: oob,
+                oob,
+                ..base(prop)
+            });
+        }
+    }
+    cfgs
+}
+
 fn plans(prop: &str, tier: &str) -> Vec<Plan> {
     let q = tier == "quick";
     let mut out = Vec::new();
@@ -2043,6 +2104,7 @@ fn plans(prop: &str, tier: &str) -> Vec<Plan> {
                 cfgs.extend(with_lens(Cfg { pre_subs: ps.clone(), txn: true, alphabet: Alphabet::Reduced, drop_vec: true, epilogue_drop: true, ..base("C05") }, 0..=1));
             }
             out.push(Plan { name: "c05-reduced-deep", cfgs, depth: if q { 6 } else { 7 } });
+            out.push(Plan { name: "c05-tree", cfgs: tree_vec_cfgs("C05", false), depth: if q { 2 } else { 3 } });
         }
         "C06" => {
             for (cap, dq, dt) in [(1usize, 6usize, 7usize), (2, 6, 7), (3, 7, 8)] {
@@ -2073,6 +2135,7 @@ fn plans(prop: &str, tier: &str) -> Vec<Plan> {
                 }
             }
             out.push(Plan { name: "c06-bursts", cfgs, depth: if q { 3 } else { 4 } });
+            out.push(Plan { name: "c06-tree", cfgs: tree_vec_cfgs("C06", false), depth: if q { 2 } else { 3 } });
         }
         "C07" => {
             let tsubs: Vec<Vec<(Kind, Policy)>> = vec![
@@ -2134,6 +2197,7 @@ fn plans(prop: &str, tier: &str) -> Vec<Plan> {
             cfgs.extend(with_lens(Cfg { pre_subs: vec![(Kind::Plain, Policy::Eager)], txn: true, txn_abort: true, oob: true, ..base("C17") }, 0..=3));
             cfgs.extend(with_lens(Cfg { probe: false, txn: true, txn_abort: true, oob: true, ..base("C17") }, 0..=3));
             out.push(Plan { name: "c17-full", cfgs, depth: if q { 4 } else { 5 } });
+            out.push(Plan { name: "c17-tree", cfgs: tree_vec_cfgs("C17", true), depth: if q { 2 } else { 3 } });
         }
         "C14" => {
             // wake-up oracles only matter with Manual subscribers that are
@@ -2202,6 +2266,7 @@ fn plans(prop: &str, tier: &str) -> Vec<Plan> {
                 cfgs.extend(with_lens(Cfg { pre_subs: ps.clone(), txn: true, txn_abort: true, drop_sub: true, oob: true, ..base("C20") }, 0..=2));
             }
             out.push(Plan { name: "c20-vec-full", cfgs, depth: if q { 4 } else { 5 } });
+            out.push(Plan { name: "c20-vec-tree", cfgs: tree_vec_cfgs("C20", true), depth: if q { 2 } else { 3 } });
         }
         _ => {}
     }
@@ -2283,7 +2348,7 @@ fn run_all<E: El>(cli: &ev::Cli) -> i32 {
         assumptions: vec![
             "tokio's broadcast channel, imbl and the std allocator are trusted".into(),
             "message boundaries are learned from an always-drained batched subscriber of the library itself (one item per broadcasting call)".into(),
-            "bounds: vector length <= 4, <= 3 subscribers, depth as listed per sweep".into(),
+            "bounds: vector length <= 4 (66 and 131 in the *-tree sweeps, up to 200 with burst tokens), <= 3 subscribers, depth as listed per sweep".into(),
             "single-threaded: sender and receivers are driven from one thread".into(),
         ],
         require,
